@@ -1,4 +1,1344 @@
+//! C05 — the in-circuit Fiat–Shamir transcript equals the native transcript.
+//!
+//! Explicit-state BFS (engine E5) over the *product automaton* of
+//!   * the native `p3_challenger::DuplexChallenger` (the specification), and
+//!   * the repository's `p3_recursion::CircuitChallenger` driving a real `CircuitBuilder`,
+//!     compiled by the real `build()` and executed by the real `CircuitRunner`.
+//!
+//! A state is a *history* of challenger operations. For every explored history a FRESH circuit
+//! is built by replaying the history on the real `CircuitChallenger`; it is run, and
+//!   (a) every value sampled along the history (`sample`, `sample_ext`, `sample_bits`) is read
+//!       from the run's witness and compared with the native value,
+//!   (b) after EVERY step the targets exposed by the hook `CircuitChallenger::verif_snapshot()`
+//!       (state, input buffer, output buffer) are read from the witness and compared with the
+//!       native `sponge_state`, `input_buffer`, `output_buffer`,
+//!   (c) a proof-of-work check with a witness ground natively must run, one with a witness the
+//!       native challenger rejects must not run (the circuit asserts the bits are zero).
+//!
+//! Alphabet: observe(public input | constant), observe_ext(public | constant | the last sampled
+//! extension target), sample, sample_ext, sample_bits(1|3), check_pow_witness(bits 0|1|2, witness
+//! ground natively), check_pow_witness(bits 1|2, a witness for which the native sampled bits are a
+//! given non-zero pattern — rejected natively, terminal), clear; the un-de-duplicated pass adds
+//! value-dependent constants (0, small integers equal to the length tags, embedded base
+//! constants for observe_ext). `clear` has no native method; exactly like the
+//! repository's own test (`test_transcript_clear_produces_fresh_state`) its native meaning is
+//! "a new DuplexChallenger". The native PoW check is the body of
+//! `GrindingChallenger::check_witness` (bits==0 → true; observe; sample_bits == 0), which is
+//! also what the repository's tests use.
+//!
+//! ## Soundness of the de-duplication (canonical key)
+//! The key of a state is
+//!   (native |input_buffer|, native |output_buffer|, circuit |input_buffer|, |output_buffer|,
+//!    initialized, duplexed_once, const-ness bit of every state / input / output target,
+//!    min(#actions that permuted since the last clear, 3), "a sample_ext happened" bit).
+//! Argument that equal keys have equal futures, GIVEN that in both states the values of all
+//! state/buffer targets were *checked* (not assumed) equal to the native ones:
+//!   * `DuplexChallenger`'s control flow depends only on the two buffer lengths; its data is
+//!     (sponge_state, buffers).
+//!   * `CircuitChallenger`'s control flow depends on the buffer lengths and the two flags; the
+//!     builder calls it issues (`recompose_base_coeffs_to_ext`, `decompose_ext_to_base_coeffs`,
+//!     `add`) branch on whether their operands are `Const` nodes (constant folding) — that is the
+//!     const-ness mask — and on the coefficient-provenance cache, which only ever contains
+//!     entries for constants and for recomposed *outputs* (never observed back by this alphabet),
+//!     so it is determined by the mask as well. For D=1 the capacity lives in the permutation
+//!     table's chain state; with only challenger permutations in the circuit that chain state is
+//!     the output of the previous challenger permutation, i.e. the values of `state[RATE..]`,
+//!     which are compared.
+//!   * Observed values are fresh tags (public inputs or constants that collide with nothing
+//!     the challenger itself creates), so no value-dependent aliasing distinguishes two
+//!     histories with the same key. Value-dependent constants (0 and the small integers equal
+//!     to the length tags) are therefore NOT part of the de-duplicated runs; they are covered by
+//!     the separate un-de-duplicated pass over *all* histories up to a small depth.
+//!   * The permutation counter only refines the key (refinement can never merge more). The
+//!     last bit is the enabledness of the echo action (observe_ext of the last sampled extension
+//!     target); which target is echoed is data: its coefficients are non-constant sampled
+//!     targets, exactly like a public observation as far as the builder's branches go.
+//!
+//! ## Reporting
+//! Per case only the FIRST divergence is reported (clauses: `sampled_value`, `sponge_state`,
+//! `honest_error`, `pow_wrong_accepted`). Violating cases are grouped by (configuration,
+//! recompose, clause); the shortest history of a group is 1-minimised (drop single actions
+//! while the clause stays violated) and that minimal history is the canonical key.
+//! What the argument does not cover: whole-circuit effects of the optimiser on long circuits
+//! (the subject of C02/C03). The un-de-duplicated pass runs every short history as its own
+//! circuit, and every BFS state is reached through its shortest history.
+
+use std::collections::{BTreeMap, HashMap, HashSet};
+use std::marker::PhantomData;
+use std::sync::Mutex;
+use std::sync::atomic::{AtomicBool, AtomicU64, Ordering};
+use std::time::Instant;
+
+use p3_baby_bear::{BabyBear, default_babybear_poseidon1_16, default_babybear_poseidon2_16};
+use p3_challenger::{CanObserve, CanSample, CanSampleBits, DuplexChallenger, FieldChallenger};
+use p3_circuit::ops::{
+    Poseidon1Config, Poseidon2Config, generate_poseidon1_trace, generate_poseidon2_trace,
+    generate_recompose_trace,
+};
+use p3_circuit::{Circuit, CircuitBuilder, Expr, ExprId, Traces};
+use p3_field::extension::{BinomialExtensionField, QuinticTrinomialExtensionField};
+use p3_field::{BasedVectorSpace, ExtensionField, PrimeCharacteristicRing, PrimeField64};
+use p3_goldilocks::poseidon1::default_goldilocks_poseidon1_8;
+use p3_goldilocks::{Goldilocks, default_goldilocks_poseidon2_8};
+use p3_koala_bear::{KoalaBear, default_koalabear_poseidon1_16, default_koalabear_poseidon2_16};
+use p3_recursion::traits::RecursiveChallenger;
+use p3_recursion::{ChallengerPermConfig, CircuitChallenger};
+use p3_symmetric::CryptographicPermutation;
+use p3_test_utils::LiftPermToQuintic;
+use vpcore::rayon::prelude::*;
+use vpcore::serde_json::{Value, json};
+use vpcore::{Ctx, Histo, Report, finish, machinery_error, quiet_catch};
+
+// =======================================================================================
+// Alphabet
+
+/// Where an observed value comes from.
+#[derive(Clone, Copy, PartialEq, Eq, Hash, Debug, PartialOrd, Ord)]
+enum Src {
+    /// fresh public input carrying a tag value
+    Pub,
+    /// constant carrying a tag value (collides with nothing the challenger creates)
+    Const,
+    /// small constant in 1..=8 — the same `Const` node as a length tag / ONE
+    Small,
+    /// the constant 0 — the builder's shared `ExprId::ZERO`
+    Zero,
+    /// (observe_ext only) the target returned by the most recent `sample_ext` of this history:
+    /// `decompose_ext_to_base_coeffs` then takes its coefficient-provenance shortcut
+    Echo,
+}
+
+#[derive(Clone, Copy, PartialEq, Eq, Hash, Debug, PartialOrd, Ord)]
+enum Act {
+    Obs(Src),
+    /// observe an extension element: `Pub`/`Const` = D tag coefficients, `Small` = a small base
+    /// constant embedded (what the repo's tests observe), `Echo` = the last sampled ext target
+    ObsExt(Src),
+    Sample,
+    SampleExt,
+    Bits(u8),
+    /// `check_pow_witness` with a witness ground natively such that the native
+    /// `sample_bits(bits)` after observing it equals `want`: 0 = valid witness; non-zero = a
+    /// witness the native challenger rejects (terminal), one per non-zero bit pattern so that
+    /// every individual bit assertion of the circuit is exercised
+    Pow { bits: u8, public: bool, want: u8 },
+    Clear,
+}
+
+impl Act {
+    fn token(&self) -> String {
+        match self {
+            Act::Obs(Src::Pub) => "op".into(),
+            Act::Obs(Src::Const) => "oc".into(),
+            Act::Obs(Src::Small) => "os".into(),
+            Act::Obs(Src::Zero) => "oz".into(),
+            Act::ObsExt(Src::Pub) => "xp".into(),
+            Act::ObsExt(Src::Small) => "xs".into(),
+            Act::ObsExt(Src::Echo) => "xe".into(),
+            Act::ObsExt(_) => "xc".into(),
+            Act::Obs(Src::Echo) => "o?".into(),
+            Act::Sample => "s".into(),
+            Act::SampleExt => "sx".into(),
+            Act::Bits(n) => format!("b{n}"),
+            Act::Pow { bits: 0, .. } => "w0".into(),
+            Act::Pow { bits, public, want: 0 } => {
+                format!("w{}{}", bits, if *public { "p" } else { "c" })
+            }
+            Act::Pow { bits, public, want } => {
+                format!("W{}{}{}", bits, if *public { "p" } else { "c" }, want)
+            }
+            Act::Clear => "clr".into(),
+        }
+    }
+    fn parse(t: &str) -> Option<Act> {
+        Some(match t {
+            "op" => Act::Obs(Src::Pub),
+            "oc" => Act::Obs(Src::Const),
+            "os" => Act::Obs(Src::Small),
+            "oz" => Act::Obs(Src::Zero),
+            "xp" => Act::ObsExt(Src::Pub),
+            "xc" => Act::ObsExt(Src::Const),
+            "xs" => Act::ObsExt(Src::Small),
+            "xe" => Act::ObsExt(Src::Echo),
+            "s" => Act::Sample,
+            "sx" => Act::SampleExt,
+            "clr" => Act::Clear,
+            "w0" => Act::Pow { bits: 0, public: false, want: 0 },
+            _ => {
+                let b = t.as_bytes();
+                if b.len() >= 2 && b[0] == b'b' {
+                    Act::Bits(t[1..].parse().ok()?)
+                } else if b.len() == 3 && b[0] == b'w' {
+                    Act::Pow { bits: t[1..2].parse().ok()?, public: b[2] == b'p', want: 0 }
+                } else if b.len() == 4 && b[0] == b'W' {
+                    let want: u8 = t[3..4].parse().ok()?;
+                    if want == 0 {
+                        return None;
+                    }
+                    Act::Pow { bits: t[1..2].parse().ok()?, public: b[2] == b'p', want }
+                } else {
+                    return None;
+                }
+            }
+        })
+    }
+    fn is_terminal(&self) -> bool {
+        matches!(self, Act::Pow { want, .. } if *want != 0)
+    }
+}
+
+fn show(h: &[Act]) -> String {
+    h.iter().map(|a| a.token()).collect::<Vec<_>>().join(",")
+}
+fn parse_hist(s: &str) -> Option<Vec<Act>> {
+    if s.is_empty() {
+        return Some(vec![]);
+    }
+    s.split(',').map(Act::parse).collect()
+}
+
+#[derive(Clone, Copy, PartialEq, Eq, Debug)]
+enum Mode {
+    /// every observation / PoW witness is a public input
+    Public,
+    /// every observation / PoW witness is a constant (what the repository's tests do)
+    Constant,
+    /// both kinds, de-duplicated on the const-ness mask
+    Mixed,
+    /// both kinds + value-dependent constants, NO de-duplication, bounded depth
+    Undedup,
+}
+impl Mode {
+    fn tag(&self) -> &'static str {
+        match self {
+            Mode::Public => "public",
+            Mode::Constant => "constant",
+            Mode::Mixed => "mixed",
+            Mode::Undedup => "undedup",
+        }
+    }
+    /// simplest first
+    fn alphabet(&self) -> Vec<Act> {
+        let pow = |bits, public, want| Act::Pow { bits, public, want };
+        match self {
+            Mode::Public | Mode::Constant => {
+                let p = *self == Mode::Public;
+                let s = if p { Src::Pub } else { Src::Const };
+                vec![
+                    Act::Obs(s),
+                    Act::Sample,
+                    Act::ObsExt(s),
+                    Act::SampleExt,
+                    Act::Bits(1),
+                    Act::Bits(3),
+                    pow(0, false, 0),
+                    pow(1, p, 0),
+                    pow(2, p, 0),
+                    pow(1, p, 1),
+                    pow(2, p, 1),
+                    pow(2, p, 2),
+                    Act::Clear,
+                ]
+            }
+            Mode::Mixed | Mode::Undedup => {
+                let mut v = vec![Act::Obs(Src::Pub), Act::Obs(Src::Const)];
+                if *self == Mode::Undedup {
+                    v.push(Act::Obs(Src::Small));
+                    v.push(Act::Obs(Src::Zero));
+                }
+                v.extend([
+                    Act::Sample,
+                    Act::ObsExt(Src::Pub),
+                    Act::ObsExt(Src::Const),
+                ]);
+                if *self == Mode::Undedup {
+                    v.push(Act::ObsExt(Src::Small));
+                }
+                v.extend([
+                    Act::SampleExt,
+                    Act::ObsExt(Src::Echo),
+                    Act::Bits(1),
+                    Act::Bits(3),
+                    pow(0, false, 0),
+                    pow(1, true, 0),
+                    pow(2, false, 0),
+                    pow(1, false, 1),
+                    pow(2, true, 2),
+                    pow(2, false, 1),
+                    Act::Clear,
+                ]);
+                v
+            }
+        }
+    }
+}
+
+// =======================================================================================
+// One case = one history replayed on both sides
+
+#[derive(Default, Clone)]
+struct CaseResult {
+    /// canonical state key; `None` for terminal / violating cases (never expanded)
+    key: Option<String>,
+    /// the last action is not enabled in this history (echo without a previous sample_ext)
+    disabled: bool,
+    terminal: bool,
+    /// (clause, detail)
+    viols: Vec<(&'static str, String)>,
+    values_compared: u64,
+    unmapped: u64,
+    /// canonical u64 of every base value sampled natively (for the distinct-outcome count)
+    sampled: Vec<u64>,
+    perm_actions: u64,
+    /// outcome label for the histogram
+    outcome: &'static str,
+    summary: String,
+}
+
+trait DynCfg: Send + Sync {
+    fn name(&self) -> &'static str;
+    fn describe(&self) -> String;
+    fn run_case(&self, recompose: bool, hist: &[Act], seed: u64) -> CaseResult;
+}
+
+struct Spec<BF, EF: p3_field::Field, P, PC: ChallengerPermConfig, const W: usize, const R: usize> {
+    name: &'static str,
+    what: &'static str,
+    /// built once (Poseidon1 constant derivation is expensive), cloned per case
+    perm: P,
+    make_builder: fn(bool, &P) -> CircuitBuilder<EF>,
+    make_cc: fn() -> CircuitChallenger<W, R, PC>,
+    _p: PhantomData<fn() -> (BF, EF)>,
+}
+
+enum Step<BF, EF> {
+    Obs { v: BF, src: Src },
+    ObsExt { v: EF, src: Src },
+    Sample { exp: BF },
+    SampleExt { exp: EF },
+    Bits { n: usize, exp: usize },
+    Pow { bits: usize, w: BF, public: bool, ok: bool },
+    Clear,
+}
+
+type Snap = (Vec<ExprId>, Vec<ExprId>, Vec<ExprId>, bool, bool);
+
+struct CircuitOut<EF> {
+    snaps: Vec<Snap>,
+    /// per step: the targets returned by a sampling call
+    sampled: Vec<Vec<ExprId>>,
+    is_const: Vec<bool>,
+    circuit: Circuit<EF>,
+    traces: Traces<EF>,
+}
+
+fn tag_value<BF: PrimeField64>(seed: u64, k: usize, j: usize) -> BF {
+    // non-zero, pairwise distinct for k < 60, j < 8, far from the small integers the
+    // challenger itself uses (0, length tags 1..=8); VERIF_SEED only rotates the values.
+    BF::from_u64(1000 + 97 * k as u64 + 11 * j as u64 + 7919 * (seed % 997))
+}
+
+impl<BF, EF, P, PC, const W: usize, const R: usize> DynCfg for Spec<BF, EF, P, PC, W, R>
+where
+    BF: PrimeField64 + Default,
+    EF: ExtensionField<BF> + Eq + core::hash::Hash,
+    P: CryptographicPermutation<[BF; W]> + Clone + Send + Sync,
+    PC: ChallengerPermConfig,
+{
+    fn name(&self) -> &'static str {
+        self.name
+    }
+    fn describe(&self) -> String {
+        format!(
+            "{}: {} (WIDTH {W}, RATE {R}, challenge degree {})",
+            self.name,
+            self.what,
+            <EF as BasedVectorSpace<BF>>::DIMENSION
+        )
+    }
+
+    fn run_case(&self, recompose: bool, hist: &[Act], seed: u64) -> CaseResult {
+        let mut res = CaseResult::default();
+        let d = <EF as BasedVectorSpace<BF>>::DIMENSION;
+        let emb = |x: BF| -> EF { EF::from(x) };
+
+        // ------------------------------------------------------------------ native side
+        let perm = self.perm.clone();
+        let mut nat = DuplexChallenger::<BF, P, W, R>::new(perm.clone());
+        let mut steps: Vec<Step<BF, EF>> = Vec::with_capacity(hist.len());
+        let mut nsnaps: Vec<(Vec<BF>, Vec<BF>, Vec<BF>)> = Vec::with_capacity(hist.len());
+        let mut perm_actions = 0u64;
+        let mut perm_actions_since_clear = 0u64;
+        let mut last_ext: Option<EF> = None;
+        for (k, a) in hist.iter().enumerate() {
+            if res.terminal {
+                machinery_error("history continues after a wrong PoW witness");
+            }
+            let before = nat.sponge_state;
+            let st = match *a {
+                Act::Obs(src) => {
+                    let v = match src {
+                        Src::Pub | Src::Const => tag_value::<BF>(seed, k, 0),
+                        Src::Small => BF::from_u64((k % 8) as u64 + 1),
+                        Src::Zero => BF::ZERO,
+                        Src::Echo => machinery_error("echo is an observe_ext source"),
+                    };
+                    nat.observe(v);
+                    Step::Obs { v, src }
+                }
+                Act::ObsExt(src) => {
+                    let v = match src {
+                        Src::Small => emb(BF::from_u64((k % 8) as u64 + 1)),
+                        Src::Echo => match last_ext {
+                            Some(v) => v,
+                            None => {
+                                if k + 1 != hist.len() {
+                                    machinery_error("history continues after a disabled echo");
+                                }
+                                res.disabled = true;
+                                res.outcome = "disabled";
+                                return res;
+                            }
+                        },
+                        _ => EF::from_basis_coefficients_fn(|j| tag_value::<BF>(seed, k, j + 1)),
+                    };
+                    nat.observe_algebra_element(v);
+                    Step::ObsExt { v, src }
+                }
+                Act::Sample => {
+                    let exp: BF = nat.sample();
+                    res.sampled.push(exp.as_canonical_u64());
+                    Step::Sample { exp }
+                }
+                Act::SampleExt => {
+                    let exp: EF = nat.sample_algebra_element();
+                    last_ext = Some(exp);
+                    for c in exp.as_basis_coefficients_slice() {
+                        res.sampled.push(c.as_canonical_u64());
+                    }
+                    Step::SampleExt { exp }
+                }
+                Act::Bits(n) => {
+                    let exp: usize = nat.sample_bits(n as usize);
+                    res.sampled.push(exp as u64);
+                    Step::Bits { n: n as usize, exp }
+                }
+                Act::Pow { bits, public, want } => {
+                    let bits = bits as usize;
+                    let wrong = want != 0;
+                    if bits == 0 {
+                        // GrindingChallenger::check_witness: `if bits == 0 { return true }`
+                        Step::Pow { bits, w: BF::ZERO, public: false, ok: true }
+                    } else {
+                        // grind on clones of the native challenger, exactly like the repo's tests
+                        let mut found = None;
+                        for c in 0..100_000u64 {
+                            let w = BF::from_u64(500_000 + c);
+                            let mut probe = nat.clone();
+                            probe.observe(w);
+                            if probe.sample_bits(bits) == want as usize {
+                                found = Some(w);
+                                break;
+                            }
+                        }
+                        let Some(w) = found else {
+                            machinery_error("no PoW witness found natively");
+                        };
+                        nat.observe(w);
+                        let ok = nat.sample_bits(bits) == 0;
+                        if ok == wrong {
+                            machinery_error("native PoW replay disagrees with the grind");
+                        }
+                        if wrong {
+                            res.terminal = true;
+                        }
+                        Step::Pow { bits, w, public, ok }
+                    }
+                }
+                Act::Clear => {
+                    // no native `clear`: the repo's own test equates it with a fresh challenger
+                    nat = DuplexChallenger::<BF, P, W, R>::new(perm.clone());
+                    perm_actions_since_clear = 0;
+                    Step::Clear
+                }
+            };
+            if nat.sponge_state != before && !matches!(a, Act::Clear) {
+                perm_actions += 1;
+                perm_actions_since_clear += 1;
+            }
+            nsnaps.push((
+                nat.sponge_state.to_vec(),
+                nat.input_buffer.clone(),
+                nat.output_buffer.clone(),
+            ));
+            steps.push(st);
+        }
+        res.perm_actions = perm_actions;
+
+        if hist.is_empty() {
+            // root: nothing to run; key of the two untouched objects
+            let cc = (self.make_cc)();
+            let (s, i, o, init, dup) = cc.verif_snapshot();
+            res.key = Some(format!(
+                "n{}:{} c{}:{} st{} i{} d{} m- p0 e0",
+                nat.input_buffer.len(),
+                nat.output_buffer.len(),
+                i.len(),
+                o.len(),
+                s.len(),
+                init as u8,
+                dup as u8
+            ));
+            res.outcome = "root";
+            return res;
+        }
+
+        // ------------------------------------------------------------------ circuit side
+        let expect_reject = res.terminal;
+        let circ: Result<Result<CircuitOut<EF>, String>, String> = quiet_catch(|| {
+            let mut b = (self.make_builder)(recompose, &self.perm);
+            let mut cc = (self.make_cc)();
+            let mut pubs: Vec<EF> = vec![];
+            let mut snaps: Vec<Snap> = vec![];
+            let mut sampled: Vec<Vec<ExprId>> = vec![];
+            let mut last_ext_target: Option<ExprId> = None;
+            for st in &steps {
+                let mut got: Vec<ExprId> = vec![];
+                match st {
+                    Step::Obs { v, src } => {
+                        let t = if *src == Src::Pub {
+                            pubs.push(emb(*v));
+                            b.public_input()
+                        } else {
+                            b.define_const(emb(*v))
+                        };
+                        RecursiveChallenger::<BF, EF>::observe(&mut cc, &mut b, t);
+                    }
+                    Step::ObsExt { v, src } => {
+                        let t = match src {
+                            Src::Pub => {
+                                pubs.push(*v);
+                                b.public_input()
+                            }
+                            Src::Echo => last_ext_target.expect("echo enabled"),
+                            _ => b.define_const(*v),
+                        };
+                        RecursiveChallenger::<BF, EF>::observe_ext(&mut cc, &mut b, t);
+                    }
+                    Step::Sample { .. } => {
+                        got.push(RecursiveChallenger::<BF, EF>::sample(&mut cc, &mut b));
+                    }
+                    Step::SampleExt { .. } => {
+                        let t = RecursiveChallenger::<BF, EF>::sample_ext(&mut cc, &mut b);
+                        last_ext_target = Some(t);
+                        got.push(t);
+                    }
+                    Step::Bits { n, .. } => {
+                        got = RecursiveChallenger::<BF, EF>::sample_bits(&mut cc, &mut b, *n)
+                            .map_err(|e| format!("build: sample_bits({n}): {e:?}"))?;
+                    }
+                    Step::Pow { bits, w, public, .. } => {
+                        let t = if *public {
+                            pubs.push(emb(*w));
+                            b.public_input()
+                        } else {
+                            b.define_const(emb(*w))
+                        };
+                        RecursiveChallenger::<BF, EF>::check_pow_witness(&mut cc, &mut b, *bits, t)
+                            .map_err(|e| format!("build: check_pow_witness({bits}): {e:?}"))?;
+                    }
+                    Step::Clear => RecursiveChallenger::<BF, EF>::clear(&mut cc, &mut b),
+                }
+                sampled.push(got);
+                snaps.push(cc.verif_snapshot());
+            }
+            let is_const: Vec<bool> = b
+                .verif_snapshot()
+                .0
+                .iter()
+                .map(|n| matches!(n, Expr::Const(_)))
+                .collect();
+            let circuit = b.build().map_err(|e| format!("build: {e:?}"))?;
+            let traces = {
+                let mut r = circuit.runner();
+                r.set_public_inputs(&pubs)
+                    .map_err(|e| format!("run: set_public_inputs: {e:?}"))?;
+                r.run().map_err(|e| format!("run: {e:?}"))?
+            };
+            Ok(CircuitOut { snaps, sampled, is_const, circuit, traces })
+        });
+        let circ: Result<CircuitOut<EF>, String> = match circ {
+            Ok(r) => r,
+            Err(p) => Err(format!("panic: {p}")),
+        };
+
+        let out = match circ {
+            Err(e) => {
+                if expect_reject {
+                    res.outcome = "pow_wrong_rejected";
+                    res.summary = format!("wrong PoW witness rejected on both sides ({})", trunc(&e));
+                } else {
+                    res.outcome = "honest_error";
+                    res.viols.push(("honest_error", trunc(&e)));
+                }
+                return res;
+            }
+            Ok(o) => o,
+        };
+        // ------------------------------------------------------------------ oracle
+        // Mismatches are collected in step order (within a step: sampled values first, then the
+        // sponge state); only the FIRST divergence of a case is reported, everything after it is
+        // a consequence.
+        let mut unmapped = 0u64;
+        let mut compared = 0u64;
+        let mut val = |e: ExprId| -> Option<EF> {
+            let v = out
+                .circuit
+                .expr_to_widx
+                .get(&e)
+                .and_then(|w| out.traces.witness_trace.get_value(*w).copied());
+            if v.is_none() {
+                unmapped += 1;
+            } else {
+                compared += 1;
+            }
+            v
+        };
+        let fu = |x: &BF| x.as_canonical_u64();
+        let show_ef = |x: &EF| -> String {
+            let c: Vec<u64> = x.as_basis_coefficients_slice().iter().map(fu).collect();
+            format!("{c:?}")
+        };
+        let mut viols: Vec<(&'static str, String)> = vec![];
+        let mut sample_txt: Vec<String> = vec![];
+        for (k, st) in steps.iter().enumerate() {
+            // (a) sampled values
+            match st {
+                Step::Sample { exp } => {
+                    if let Some(v) = val(out.sampled[k][0]) {
+                        sample_txt.push(format!("s@{k}={}", fu(exp)));
+                        if v != emb(*exp) {
+                            viols.push((
+                                "sampled_value",
+                                format!("step {k}: native {} circuit {}", fu(exp), show_ef(&v)),
+                            ));
+                        }
+                    }
+                }
+                Step::SampleExt { exp } => {
+                    if let Some(v) = val(out.sampled[k][0]) {
+                        sample_txt.push(format!("sx@{k}={}", show_ef(exp)));
+                        if v != *exp {
+                            viols.push((
+                                "sampled_value",
+                                format!("step {k}: native {} circuit {}", show_ef(exp), show_ef(&v)),
+                            ));
+                        }
+                    }
+                }
+                Step::Bits { n, exp } => {
+                    if out.sampled[k].len() != *n {
+                        viols.push((
+                            "sampled_value",
+                            format!("step {k}: {} bit targets for num_bits {n}", out.sampled[k].len()),
+                        ));
+                    }
+                    sample_txt.push(format!("b{n}@{k}={exp}"));
+                    for (i, t) in out.sampled[k].iter().enumerate() {
+                        if let Some(v) = val(*t)
+                            && v != EF::from_bool((exp >> i) & 1 == 1)
+                        {
+                            viols.push((
+                                "sampled_value",
+                                format!(
+                                    "step {k}: bit {i} native {} circuit {}",
+                                    (exp >> i) & 1,
+                                    show_ef(&v)
+                                ),
+                            ));
+                        }
+                    }
+                }
+                _ => {}
+            }
+            // (b) whole sponge state after the step
+            let (cs, ci, co, init, _) = &out.snaps[k];
+            let (ns, ni, no) = &nsnaps[k];
+            if ci.len() != ni.len() || co.len() != no.len() {
+                viols.push((
+                    "sponge_state",
+                    format!(
+                        "step {k}: native |in|={} |out|={} circuit |in|={} |out|={}",
+                        ni.len(),
+                        no.len(),
+                        ci.len(),
+                        co.len()
+                    ),
+                ));
+                continue;
+            }
+            for (name, cts, nvs) in [("input_buffer", ci, ni), ("output_buffer", co, no)] {
+                for (i, (t, nv)) in cts.iter().zip(nvs.iter()).enumerate() {
+                    if let Some(v) = val(*t)
+                        && v != emb(*nv)
+                    {
+                        viols.push((
+                            "sponge_state",
+                            format!("step {k}: {name}[{i}] native {} circuit {}", fu(nv), show_ef(&v)),
+                        ));
+                    }
+                }
+            }
+            if *init {
+                if cs.len() != W {
+                    viols.push(("sponge_state", format!("step {k}: {} state targets, WIDTH {W}", cs.len())));
+                } else {
+                    for (i, (t, nv)) in cs.iter().zip(ns.iter()).enumerate() {
+                        if let Some(v) = val(*t)
+                            && v != emb(*nv)
+                        {
+                            viols.push((
+                                "sponge_state",
+                                format!("step {k}: state[{i}] native {} circuit {}", fu(nv), show_ef(&v)),
+                            ));
+                        }
+                    }
+                }
+            } else if ns.iter().any(|x| *x != BF::ZERO) {
+                viols.push(("sponge_state", format!("step {k}: circuit uninitialised, native state non-zero")));
+            }
+        }
+        drop(val);
+        res.values_compared = compared;
+        res.unmapped = unmapped;
+        res.summary = format!("{} | native==circuit: {}", show(hist), sample_txt.join(" "));
+        if let Some(first) = viols.into_iter().next() {
+            res.viols.push(first);
+            res.outcome = "mismatch";
+            return res;
+        }
+        if expect_reject {
+            // the transcript agrees up to and including the PoW step, yet the circuit ran
+            res.outcome = "pow_wrong_accepted";
+            res.viols.push((
+                "pow_wrong_accepted",
+                "native check_witness is false but the circuit runs (sampled bits not all asserted zero)".into(),
+            ));
+            return res;
+        }
+        res.outcome = "equal";
+
+        // ------------------------------------------------------------------ canonical key
+        let (cs, ci, co, init, dup) = out.snaps.last().unwrap();
+        let (_, ni, no) = nsnaps.last().unwrap();
+        let mask = |ts: &[ExprId]| -> String {
+            ts.iter()
+                .map(|t| if out.is_const.get(t.0 as usize).copied().unwrap_or(false) { 'c' } else { 'w' })
+                .collect()
+        };
+        let _ = d;
+        res.key = Some(format!(
+            "n{}:{} c{}:{} st{} i{} d{} m{}/{}/{} p{} e{}",
+            ni.len(),
+            no.len(),
+            ci.len(),
+            co.len(),
+            cs.len(),
+            *init as u8,
+            *dup as u8,
+            mask(cs),
+            mask(ci),
+            mask(co),
+            perm_actions_since_clear.min(3),
+            last_ext.is_some() as u8
+        ));
+        res
+    }
+}
+
+fn trunc(s: &str) -> String {
+    let s: String = s.chars().take(300).collect();
+    s.replace('\n', " ")
+}
+
+// =======================================================================================
+// Configurations
+
+type BbE4 = BinomialExtensionField<BabyBear, 4>;
+type KbE4 = BinomialExtensionField<KoalaBear, 4>;
+type KbE5 = QuinticTrinomialExtensionField<KoalaBear>;
+type GlE2 = BinomialExtensionField<Goldilocks, 2>;
+
+macro_rules! spec {
+    ($name:expr, $what:expr, $bf:ty, $ef:ty, $w:expr, $r:expr, $pc:ty,
+     perm = $pty:ty : $perm:expr, cc = $cc:expr, builder = |$c:ident, $p:ident| $enable:block) => {{
+        fn mk_builder(rc: bool, $p: &$pty) -> CircuitBuilder<$ef> {
+            let mut $c = CircuitBuilder::<$ef>::new();
+            $enable
+            if rc {
+                $c.enable_recompose::<$bf>(generate_recompose_trace::<$bf, $ef>);
+            }
+            $c
+        }
+        Box::new(Spec::<$bf, $ef, $pty, $pc, $w, $r> {
+            name: $name,
+            what: $what,
+            perm: $perm,
+            make_builder: mk_builder,
+            make_cc: || $cc,
+            _p: PhantomData,
+        }) as Box<dyn DynCfg>
+    }};
+}
+
+fn configs() -> Vec<Box<dyn DynCfg>> {
+    use p3_circuit::ops::poseidon1_perm as p1;
+    use p3_circuit::ops::poseidon2_perm as p2;
+    vec![
+        spec!("bb-d4-p2", "BabyBear, quartic challenge, Poseidon2 width 16 packed D=4",
+            BabyBear, BbE4, 16, 8, Poseidon2Config,
+            perm = p3_baby_bear::Poseidon2BabyBear<16> : default_babybear_poseidon2_16(),
+            cc = CircuitChallenger::<16, 8, Poseidon2Config>::new_babybear(),
+            builder = |c, p| {
+                c.enable_poseidon2_perm::<p3_poseidon2_circuit_air::BabyBearD4Width16, _>(
+                    generate_poseidon2_trace::<BbE4, p3_poseidon2_circuit_air::BabyBearD4Width16>,
+                    p.clone());
+            }),
+        spec!("kb-d1-p2", "KoalaBear, base-field challenge (EF=F), Poseidon2 width 16 D=1",
+            KoalaBear, KoalaBear, 16, 8, Poseidon2Config,
+            perm = p3_koala_bear::Poseidon2KoalaBear<16> : default_koalabear_poseidon2_16(),
+            cc = CircuitChallenger::<16, 8, Poseidon2Config>::new_koalabear_base(),
+            builder = |c, p| {
+                c.enable_poseidon2_perm_base::<p2::KoalaBearD1Width16, _>(
+                    generate_poseidon2_trace::<KoalaBear, p2::KoalaBearD1Width16>,
+                    p.clone());
+            }),
+        spec!("kb-d4-p2", "KoalaBear, quartic challenge, Poseidon2 width 16 packed D=4",
+            KoalaBear, KbE4, 16, 8, Poseidon2Config,
+            perm = p3_koala_bear::Poseidon2KoalaBear<16> : default_koalabear_poseidon2_16(),
+            cc = CircuitChallenger::<16, 8, Poseidon2Config>::new_koalabear(),
+            builder = |c, p| {
+                c.enable_poseidon2_perm::<p3_poseidon2_circuit_air::KoalaBearD4Width16, _>(
+                    generate_poseidon2_trace::<KbE4, p3_poseidon2_circuit_air::KoalaBearD4Width16>,
+                    p.clone());
+            }),
+        spec!("gl-d2-p2", "Goldilocks, quadratic challenge, Poseidon2 width 8 rate 4",
+            Goldilocks, GlE2, 8, 4, Poseidon2Config,
+            perm = p3_goldilocks::Poseidon2Goldilocks<8> : default_goldilocks_poseidon2_8(),
+            cc = CircuitChallenger::<8, 4, Poseidon2Config>::new_goldilocks(),
+            builder = |c, p| {
+                c.enable_poseidon2_perm_width_8::<p2::GoldilocksD2Width8, _>(
+                    generate_poseidon2_trace::<GlE2, p2::GoldilocksD2Width8>,
+                    p.clone());
+            }),
+        spec!("bb-d1-p2", "BabyBear, base-field challenge (EF=F), Poseidon2 width 16 D=1",
+            BabyBear, BabyBear, 16, 8, Poseidon2Config,
+            perm = p3_baby_bear::Poseidon2BabyBear<16> : default_babybear_poseidon2_16(),
+            cc = CircuitChallenger::<16, 8, Poseidon2Config>::new_babybear_base(),
+            builder = |c, p| {
+                c.enable_poseidon2_perm_base::<p2::BabyBearD1Width16, _>(
+                    generate_poseidon2_trace::<BabyBear, p2::BabyBearD1Width16>,
+                    p.clone());
+            }),
+        spec!("kb-d1q-p2", "KoalaBear, quintic challenge over a base (D=1) Poseidon2 width 16",
+            KoalaBear, KbE5, 16, 8, Poseidon2Config,
+            perm = p3_koala_bear::Poseidon2KoalaBear<16> : default_koalabear_poseidon2_16(),
+            cc = CircuitChallenger::<16, 8, Poseidon2Config>::new_koalabear_base(),
+            builder = |c, p| {
+                c.enable_poseidon2_perm_base::<p2::KoalaBearD1Width16, _>(
+                    generate_poseidon2_trace::<KbE5, p2::KoalaBearD1Width16>,
+                    LiftPermToQuintic::<KoalaBear, _, 16>::new(p.clone()));
+            }),
+        spec!("kb-d1-p1", "KoalaBear, base-field challenge, Poseidon1 width 16 D=1",
+            KoalaBear, KoalaBear, 16, 8, Poseidon1Config,
+            perm = p3_koala_bear::Poseidon1KoalaBear<16> : default_koalabear_poseidon1_16(),
+            cc = CircuitChallenger::<16, 8, Poseidon1Config>::new_koalabear_poseidon1_base(),
+            builder = |c, p| {
+                c.enable_poseidon1_perm_base::<p1::KoalaBearD1Width16, _>(
+                    generate_poseidon1_trace::<KoalaBear, p1::KoalaBearD1Width16>,
+                    p.clone());
+            }),
+        spec!("bb-d1-p1", "BabyBear, base-field challenge, Poseidon1 width 16 D=1",
+            BabyBear, BabyBear, 16, 8, Poseidon1Config,
+            perm = p3_baby_bear::Poseidon1BabyBear<16> : default_babybear_poseidon1_16(),
+            cc = CircuitChallenger::<16, 8, Poseidon1Config>::new_babybear_poseidon1_base(),
+            builder = |c, p| {
+                c.enable_poseidon1_perm_base::<p1::BabyBearD1Width16, _>(
+                    generate_poseidon1_trace::<BabyBear, p1::BabyBearD1Width16>,
+                    p.clone());
+            }),
+        spec!("gl-d2-p1", "Goldilocks, quadratic challenge, Poseidon1 width 8 rate 4",
+            Goldilocks, GlE2, 8, 4, Poseidon1Config,
+            perm = p3_goldilocks::poseidon1::Poseidon1Goldilocks<8> : default_goldilocks_poseidon1_8(),
+            cc = CircuitChallenger::<8, 4, Poseidon1Config>::new_goldilocks_poseidon1(),
+            builder = |c, p| {
+                c.enable_poseidon1_perm_width_8::<p1::GoldilocksD2Width8, _>(
+                    generate_poseidon1_trace::<GlE2, p1::GoldilocksD2Width8>,
+                    p.clone());
+            }),
+        spec!("bb-d4-p1", "BabyBear, quartic challenge, Poseidon1 width 16 packed D=4",
+            BabyBear, BbE4, 16, 8, Poseidon1Config,
+            perm = p3_baby_bear::Poseidon1BabyBear<16> : default_babybear_poseidon1_16(),
+            cc = CircuitChallenger::<16, 8, Poseidon1Config>::new(Poseidon1Config::BABY_BEAR_D4_W16),
+            builder = |c, p| {
+                c.enable_poseidon1_perm::<p1::BabyBearD4Width16, _>(
+                    generate_poseidon1_trace::<BbE4, p1::BabyBearD4Width16>,
+                    p.clone());
+            }),
+        spec!("kb-d4-p1", "KoalaBear, quartic challenge, Poseidon1 width 16 packed D=4",
+            KoalaBear, KbE4, 16, 8, Poseidon1Config,
+            perm = p3_koala_bear::Poseidon1KoalaBear<16> : default_koalabear_poseidon1_16(),
+            cc = CircuitChallenger::<16, 8, Poseidon1Config>::new(Poseidon1Config::KOALA_BEAR_D4_W16),
+            builder = |c, p| {
+                c.enable_poseidon1_perm::<p1::KoalaBearD4Width16, _>(
+                    generate_poseidon1_trace::<KbE4, p1::KoalaBearD4Width16>,
+                    p.clone());
+            }),
+    ]
+}
+
+// =======================================================================================
+// Exploration
+
+struct RawViol {
+    cfg: &'static str,
+    rc: bool,
+    clause: &'static str,
+    hist: Vec<Act>,
+    detail: String,
+}
+
+#[derive(Default)]
+struct Shared {
+    viols: Mutex<Vec<RawViol>>,
+    outcomes: Histo,
+    cases: AtomicU64,
+    values_compared: AtomicU64,
+    unmapped: AtomicU64,
+    perm_actions: AtomicU64,
+    distinct_samples: Mutex<HashSet<u64>>,
+    samples: Mutex<Vec<String>>,
+    truncated: AtomicBool,
+}
+
+impl Shared {
+    fn record(&self, cfg: &'static str, rc: bool, hist: &[Act], r: &CaseResult) {
+        self.cases.fetch_add(1, Ordering::Relaxed);
+        self.values_compared.fetch_add(r.values_compared, Ordering::Relaxed);
+        self.unmapped.fetch_add(r.unmapped, Ordering::Relaxed);
+        self.perm_actions.fetch_add(r.perm_actions, Ordering::Relaxed);
+        self.outcomes.add(r.outcome);
+        if !r.sampled.is_empty() {
+            let mut g = self.distinct_samples.lock().unwrap();
+            g.extend(r.sampled.iter().copied());
+        }
+        for (clause, detail) in &r.viols {
+            self.viols.lock().unwrap().push(RawViol {
+                cfg,
+                rc,
+                clause,
+                hist: hist.to_vec(),
+                detail: detail.clone(),
+            });
+        }
+    }
+}
+
+#[derive(Clone, Debug)]
+struct JobStat {
+    cfg: &'static str,
+    rc: bool,
+    mode: Mode,
+    states: u64,
+    transitions: u64,
+    terminal_transitions: u64,
+    levels: u32,
+    longest_history: usize,
+    complete: bool,
+    wall_s: f64,
+}
+impl JobStat {
+    fn to_json(&self) -> Value {
+        json!({
+            "config": self.cfg, "recompose_table": self.rc, "mode": self.mode.tag(),
+            "states": self.states, "transitions": self.transitions,
+            "terminal_transitions_wrong_pow": self.terminal_transitions,
+            "levels": self.levels, "longest_history": self.longest_history,
+            "complete": self.complete, "wall_s": (self.wall_s * 100.0).round() / 100.0,
+        })
+    }
+}
+
+/// BFS to a fixpoint on the canonical key.
+fn bfs(ctx: &Ctx, cfg: &dyn DynCfg, rc: bool, mode: Mode, sh: &Shared) -> JobStat {
+    let t0 = Instant::now();
+    let alphabet = mode.alphabet();
+    let name = cfg.name();
+    let root = cfg.run_case(rc, &[], ctx.seed);
+    let mut seen: HashSet<String> = HashSet::new();
+    seen.insert(root.key.clone().unwrap());
+    let mut frontier: Vec<Vec<Act>> = vec![vec![]];
+    let mut st = JobStat {
+        cfg: name, rc, mode, states: 1, transitions: 0, terminal_transitions: 0,
+        levels: 0, longest_history: 0, complete: false, wall_s: 0.0,
+    };
+    loop {
+        if frontier.is_empty() {
+            st.complete = true;
+            break;
+        }
+        if ctx.out_of_time() {
+            break;
+        }
+        let tasks: Vec<(usize, Act)> = (0..frontier.len())
+            .flat_map(|i| alphabet.iter().map(move |a| (i, *a)))
+            .collect();
+        let results: Vec<Option<(Vec<Act>, CaseResult)>> = tasks
+            .par_iter()
+            .map(|(i, a)| {
+                if ctx.out_of_time() {
+                    return None;
+                }
+                let mut h = frontier[*i].clone();
+                h.push(*a);
+                let r = cfg.run_case(rc, &h, ctx.seed);
+                Some((h, r))
+            })
+            .collect();
+        let mut next = vec![];
+        let mut partial = false;
+        for r in results {
+            let Some((h, r)) = r else {
+                partial = true;
+                continue;
+            };
+            if r.disabled {
+                continue; // action not enabled in this state: no transition
+            }
+            st.transitions += 1;
+            if r.terminal {
+                st.terminal_transitions += 1;
+            }
+            sh.record(name, rc, &h, &r);
+            if let Some(k) = &r.key
+                && seen.insert(k.clone())
+            {
+                st.states += 1;
+                st.longest_history = st.longest_history.max(h.len());
+                if st.states % 97 == 5 {
+                    let mut g = sh.samples.lock().unwrap();
+                    if g.len() < 12 {
+                        g.push(format!("{name}/rc={}/{}: {}", rc as u8, mode.tag(), r.summary));
+                    }
+                }
+                next.push(h);
+            }
+        }
+        st.levels += 1;
+        if partial {
+            break;
+        }
+        frontier = next;
+    }
+    if !st.complete {
+        sh.truncated.store(true, Ordering::Relaxed);
+    }
+    st.wall_s = t0.elapsed().as_secs_f64();
+    st
+}
+
+/// Every history of length 1..=depth over the un-de-duplicated alphabet, each as its own circuit.
+fn undedup(ctx: &Ctx, cfg: &dyn DynCfg, rc: bool, depth: usize, sh: &Shared) -> JobStat {
+    let t0 = Instant::now();
+    let alphabet = Mode::Undedup.alphabet();
+    let name = cfg.name();
+    let mut st = JobStat {
+        cfg: name, rc, mode: Mode::Undedup, states: 1, transitions: 0, terminal_transitions: 0,
+        levels: 0, longest_history: 0, complete: false, wall_s: 0.0,
+    };
+    let mut level: Vec<Vec<Act>> = vec![vec![]];
+    let mut partial = false;
+    for dpt in 1..=depth {
+        let hs: Vec<Vec<Act>> = level
+            .iter()
+            .filter(|h| h.last().is_none_or(|a| !a.is_terminal()))
+            .flat_map(|h| {
+                alphabet.iter().map(move |a| {
+                    let mut x = h.clone();
+                    x.push(*a);
+                    x
+                })
+            })
+            .collect();
+        let results: Vec<Option<CaseResult>> = hs
+            .par_iter()
+            .map(|h| (!ctx.out_of_time()).then(|| cfg.run_case(rc, h, ctx.seed)))
+            .collect();
+        for (h, r) in hs.iter().zip(results.iter()) {
+            let Some(r) = r else {
+                partial = true;
+                continue;
+            };
+            if r.disabled {
+                continue;
+            }
+            st.transitions += 1;
+            st.states += 1; // every history is its own state here
+            if r.terminal {
+                st.terminal_transitions += 1;
+            }
+            sh.record(name, rc, h, r);
+        }
+        if partial {
+            break;
+        }
+        st.levels += 1;
+        st.longest_history = dpt;
+        if dpt == 2 {
+            let mut g = sh.samples.lock().unwrap();
+            if let Some(r) = results.iter().flatten().find(|r| r.sampled.len() >= 2) {
+                g.push(format!("{name}/rc={}/undedup: {}", rc as u8, r.summary));
+            }
+        }
+        level = hs
+            .into_iter()
+            .zip(results)
+            .filter(|(_, r)| r.as_ref().is_some_and(|r| !r.disabled))
+            .map(|(h, _)| h)
+            .collect();
+    }
+    st.complete = !partial;
+    if partial {
+        sh.truncated.store(true, Ordering::Relaxed);
+    }
+    st.wall_s = t0.elapsed().as_secs_f64();
+    st
+}
+
+// =======================================================================================
+// Reporting
+
+fn viol_key(cfg: &str, rc: bool, clause: &str, hist: &[Act]) -> String {
+    format!("cfg={cfg};recompose={};clause={clause};hist={}", if rc { "on" } else { "off" }, show(hist))
+}
+
+/// 1-minimal history: drop single actions while the same clause stays violated.
+fn minimise(cfg: &dyn DynCfg, rc: bool, clause: &str, hist: &[Act], seed: u64) -> (Vec<Act>, String) {
+    let violates = |h: &[Act]| -> Option<String> {
+        if h.is_empty() || h[..h.len() - 1].iter().any(|a| a.is_terminal()) {
+            return None;
+        }
+        let r = cfg.run_case(rc, h, seed);
+        r.viols.iter().find(|(c, _)| *c == clause).map(|(_, d)| d.clone())
+    };
+    let mut cur = hist.to_vec();
+    let mut detail = violates(&cur).unwrap_or_default();
+    'outer: loop {
+        for i in 0..cur.len() {
+            let mut cand = cur.clone();
+            cand.remove(i);
+            if let Some(d) = violates(&cand) {
+                cur = cand;
+                detail = d;
+                continue 'outer;
+            }
+        }
+        break;
+    }
+    (cur, detail)
+}
+
+struct Plan {
+    cfg: usize,
+    rc: bool,
+    /// BFS modes to run to a fixpoint
+    modes: Vec<Mode>,
+    /// depth of the un-de-duplicated pass (0 = none)
+    undedup_depth: usize,
+}
+
 fn main() {
-    eprintln!("MACHINERY-ERROR: check c05 not built yet");
-    std::process::exit(2);
+    let ctx = Ctx::from_args("C05", "model_checking");
+    vpcore::install_quiet_panic_hook();
+    let report = Report::new();
+    let cfgs = configs();
+    let by_name = |n: &str| cfgs.iter().position(|c| c.name() == n);
+
+    // ------------------------------------------------------------------ replay
+    if let Some(path) = &ctx.replay {
+        let r = vpcore::load_replay(path);
+        let name = r["cfg"].as_str().unwrap_or("");
+        let rc = r["recompose"].as_bool().unwrap_or(true);
+        let hist = r["history"]
+            .as_str()
+            .and_then(parse_hist)
+            .unwrap_or_else(|| machinery_error("bad replay: history"));
+        let ci = by_name(name).unwrap_or_else(|| machinery_error("bad replay: unknown cfg"));
+        println!("replaying {name} recompose={rc} history=[{}]", show(&hist));
+        let res = cfgs[ci].run_case(rc, &hist, ctx.seed);
+        println!("  outcome: {}  {}", res.outcome, res.summary);
+        for (c, d) in &res.viols {
+            println!("  {c}: {d}");
+            report.violation(
+                viol_key(name, rc, c, &hist),
+                format!("{name} [{}]: {c}: {d}", show(&hist)),
+                json!({"cfg": name, "recompose": rc, "history": show(&hist), "clause": c, "detail": d}),
+            );
+        }
+        let cov = json!({"states": 1, "transitions": hist.len(), "traces_validated_against_impl": 1,
+            "samples": [res.summary], "replay": true});
+        finish(&ctx, cov, vec![], &report);
+    }
+
+    // ------------------------------------------------------------------ plan
+    let all_modes = vec![Mode::Public, Mode::Constant, Mode::Mixed];
+    let mut plans: Vec<Plan> = vec![];
+    let only = ctx.opt("cfg").map(|s| s.to_string());
+    if ctx.quick() {
+        // one configuration per `duplexing_*` code path of the circuit challenger (ext/base ×
+        // Poseidon2/Poseidon1), both recomposition back-ends, the quintic pairing, and WIDTH 8
+        for (n, rc) in [
+            ("bb-d4-p2", true),
+            ("bb-d4-p2", false),
+            ("kb-d1-p2", true),
+            ("kb-d1-p1", true),
+            ("kb-d1q-p2", true),
+            ("gl-d2-p1", true),
+            ("gl-d2-p2", false),
+        ] {
+            let deep = rc && matches!(n, "bb-d4-p2" | "kb-d1-p2");
+            plans.push(Plan { cfg: by_name(n).unwrap(), rc, modes: all_modes.clone(), undedup_depth: if deep { 4 } else { 3 } });
+        }
+    } else {
+        for (i, c) in cfgs.iter().enumerate() {
+            for rc in [true, false] {
+                let deep = rc && matches!(c.name(), "bb-d4-p2" | "kb-d1-p2" | "gl-d2-p1");
+                plans.push(Plan { cfg: i, rc, modes: all_modes.clone(), undedup_depth: if deep { 5 } else { 4 } });
+            }
+        }
+    }
+    if let Some(o) = &only {
+        plans.retain(|p| cfgs[p.cfg].name() == o);
+    }
+    if let Some(dv) = ctx.opt("depth").and_then(|s| s.parse::<usize>().ok()) {
+        for p in &mut plans {
+            p.undedup_depth = dv;
+        }
+    }
+
+    // jobs: (plan index, Some(mode) | None = undedup). Biggest first; all run on one rayon pool.
+    let mut jobs: Vec<(usize, Option<Mode>)> = vec![];
+    let mut by_depth: Vec<usize> = (0..plans.len()).filter(|i| plans[*i].undedup_depth > 0).collect();
+    by_depth.sort_by_key(|i| std::cmp::Reverse(plans[*i].undedup_depth));
+    for pi in by_depth {
+        jobs.push((pi, None));
+    }
+    for (pi, p) in plans.iter().enumerate() {
+        for m in [Mode::Mixed, Mode::Public, Mode::Constant] {
+            if p.modes.contains(&m) {
+                jobs.push((pi, Some(m)));
+            }
+        }
+    }
+    let sh = Shared::default();
+    let stats: Vec<JobStat> = jobs
+        .par_iter()
+        .map(|(pi, m)| {
+            let p = &plans[*pi];
+            let cfg = cfgs[p.cfg].as_ref();
+            match m {
+                Some(m) => bfs(&ctx, cfg, p.rc, *m, &sh),
+                None => undedup(&ctx, cfg, p.rc, p.undedup_depth, &sh),
+            }
+        })
+        .collect();
+
+    // ------------------------------------------------------------------ violations → minimal keys
+    let raw = std::mem::take(&mut *sh.viols.lock().unwrap());
+    let mut groups: BTreeMap<(&'static str, bool, &'static str), Vec<&RawViol>> = BTreeMap::new();
+    for v in &raw {
+        groups.entry((v.cfg, v.rc, v.clause)).or_default().push(v);
+    }
+    for ((cfg, rc, clause), vs) in &groups {
+        let first = vs
+            .iter()
+            .min_by_key(|v| (v.hist.len(), show(&v.hist)))
+            .unwrap();
+        let ci = by_name(cfg).unwrap();
+        let (min_h, detail) = minimise(cfgs[ci].as_ref(), *rc, clause, &first.hist, ctx.seed);
+        let detail = if detail.is_empty() { first.detail.clone() } else { detail };
+        let key = viol_key(cfg, *rc, clause, &min_h);
+        for _ in 0..vs.len() {
+            report.violation(
+                key.clone(),
+                format!("{cfg} recompose={rc} history [{}]: {clause}: {detail}", show(&min_h)),
+                json!({"cfg": cfg, "recompose": rc, "history": show(&min_h), "clause": clause,
+                       "detail": detail, "violating_histories": vs.len(),
+                       "first_found": show(&first.hist)}),
+            );
+        }
+    }
+
+    // ------------------------------------------------------------------ evidence
+    let bfs_stats: Vec<&JobStat> = stats.iter().filter(|s| s.mode != Mode::Undedup).collect();
+    let und_stats: Vec<&JobStat> = stats.iter().filter(|s| s.mode == Mode::Undedup).collect();
+    let states: u64 = stats.iter().map(|s| s.states).sum();
+    let transitions: u64 = stats.iter().map(|s| s.transitions).sum();
+    let exhaustive = stats.iter().all(|s| s.complete) && !sh.truncated.load(Ordering::Relaxed);
+    let distinct = sh.distinct_samples.lock().unwrap().len();
+    println!(
+        "C05: {} configurations×recompose, {} BFS runs (fixpoint reached in {}), {} un-de-duplicated passes",
+        plans.len(),
+        bfs_stats.len(),
+        bfs_stats.iter().filter(|s| s.complete).count(),
+        und_stats.len()
+    );
+    for s in &stats {
+        println!(
+            "  {:10} rc={} {:8} states {:6} transitions {:7} (wrong-PoW {:5}) levels {:2} longest {:2} complete {} {:.1}s",
+            s.cfg, s.rc as u8, s.mode.tag(), s.states, s.transitions, s.terminal_transitions,
+            s.levels, s.longest_history, s.complete, s.wall_s
+        );
+    }
+    println!(
+        "  cases {} values compared {} (targets without a witness slot: {}) native permuting actions {} distinct sampled values {} outcomes {}",
+        sh.cases.load(Ordering::Relaxed),
+        sh.values_compared.load(Ordering::Relaxed),
+        sh.unmapped.load(Ordering::Relaxed),
+        sh.perm_actions.load(Ordering::Relaxed),
+        distinct,
+        sh.outcomes.to_json()
+    );
+    let samples = sh.samples.lock().unwrap().clone();
+    let cov = json!({
+        "states": states,
+        "transitions": transitions,
+        "traces_validated_against_impl": transitions,
+        "samples": samples,
+        "exhaustive": exhaustive,
+        "bound": "BFS to a fixpoint on the canonical key per (configuration, recompose, mode); plus every history up to the stated depth without de-duplication",
+        "alphabet": {
+            "public": Mode::Public.alphabet().iter().map(|a| a.token()).collect::<Vec<_>>(),
+            "constant": Mode::Constant.alphabet().iter().map(|a| a.token()).collect::<Vec<_>>(),
+            "mixed": Mode::Mixed.alphabet().iter().map(|a| a.token()).collect::<Vec<_>>(),
+            "undedup": Mode::Undedup.alphabet().iter().map(|a| a.token()).collect::<Vec<_>>(),
+            "legend": "op/oc/os/oz observe public|const tag|const small(=length-tag values)|const 0; xp/xc observe_ext; s sample; sx sample_ext; bN sample_bits(N); wNp/wNc check_pow_witness(N bits, natively ground witness, public|const); WNpK/WNcK witness for which the native sample_bits(N) is K≠0, i.e. rejected natively (terminal); clr clear",
+        },
+        "configurations": plans.iter().map(|p| json!({"config": cfgs[p.cfg].describe(), "recompose_table": p.rc, "undedup_depth": p.undedup_depth})).collect::<Vec<_>>(),
+        "runs": stats.iter().map(|s| s.to_json()).collect::<Vec<_>>(),
+        "cases_executed": sh.cases.load(Ordering::Relaxed),
+        "values_compared": sh.values_compared.load(Ordering::Relaxed),
+        "targets_without_witness_slot": sh.unmapped.load(Ordering::Relaxed),
+        "native_permuting_actions": sh.perm_actions.load(Ordering::Relaxed),
+        "distinct_sampled_values": distinct,
+        "outcomes": sh.outcomes.to_json(),
+        "oracle": "native p3_challenger::DuplexChallenger 0.6.3: every sampled value, and after every step the whole sponge state / input buffer / output buffer, read from the run's witness",
+    });
+    let assumptions = vec![
+        "p3-challenger 0.6.3 DuplexChallenger is the specification; `clear` means a fresh native challenger and PoW means `bits==0 || (observe(w); sample_bits(bits)==0)` exactly as in the repository's tests".to_string(),
+        "de-duplication: equal (buffer lengths, flags, const-ness masks, capped permutation count) ⇒ equal futures given checked value equality of the whole state; whole-circuit optimiser effects on long circuits are not covered by that argument (C02/C03) and are exercised only by the histories actually run".to_string(),
+        "observed values are base-field elements (embedded), which is the documented precondition of observe(); values are fixed tags rotated by VERIF_SEED".to_string(),
+        "only challenger operations are in the circuit (no foreign Poseidon rows between D=1 challenger permutations)".to_string(),
+    ];
+    finish(&ctx, cov, assumptions, &report);
 }
